@@ -961,6 +961,21 @@ func phiLowerBounds(fn *ssa.Function) map[*ssa.Phi]int64 {
 					return 0
 				}
 			}
+			if x.Op == token.ADD {
+				// sum of two values that are both bounded below by a non-negative constant: a
+				// running total `n += m` of counts (read count, copy count, length). inf = "not
+				// known yet" keeps the fixpoint optimistic, exactly as for phi + k above.
+				a, b := edgeLo(x.X, depth+1), edgeLo(x.Y, depth+1)
+				switch {
+				case a <= -inf || b <= -inf || a < 0 || b < 0:
+					return -inf
+				case a >= inf || b >= inf:
+					return inf
+				case a+b < inf:
+					return a + b
+				}
+				return a
+			}
 		case *ssa.Call:
 			switch callName(&x.Call) {
 			case "builtin.len", "builtin.cap", "builtin.copy", "bytes.Buffer.Len":
